@@ -233,3 +233,26 @@ PROPS["C13"] = {
         "design_ref": "DESIGN.md §4 C13",
     },
 }
+
+PROPS["C18"] = {
+    "level": "model_checking",
+    "kani": [{"package": "boa_engine", "flags": ENGINE_FLAGS, "tags": ["c18a"], "timeout": {"quick": 900, "thorough": 1800}}],
+    "assumptions": COMMON_ASSUME + [
+        "StaticJsStrings::get_string is stubbed to None (the well-known-string canonicalisation is an optimisation; the generic heap string path is the one under test)",
+    ],
+    "outside_claim": [
+        "JSON.parse in its entirety (serde_json pre-validation ∩ the JS parser, reviver, source-text tracking)",
+        "SerializeJSONProperty/Object/Array: toJSON, replacer, indent, number formatting, cycle detection (need Context and the heap)",
+        "strings longer than the stated bounds",
+    ],
+    "trusted_base": ["code-unit reference model of QuoteJSONString in the harness"],
+    "manifest": {
+        "text": "Kernel-level claim. Bounded model checking of QuoteJSONString, the routine that produces every string and property key in "
+                "JSON.stringify output: for ALL strings of 1 and 2 (3 in the thorough tier) UTF-16 code units over the full 16-bit alphabet "
+                "the output equals, unit by unit, an independent code-unit model of ECMA-262 25.5.2.2 (short escapes, lower-case \\u00xx for "
+                "control characters, \\udxxx for lone surrogates, pairs verbatim). JSON.parse and the object/array serialisers are NOT decided.",
+        "note": "Trusted: Kani/CBMC, the get_string stub, the harness model. Outside: JSON.parse, replacer/indent/toJSON, number formatting.",
+        "technique": "bounded model checking of the compiled Rust (Kani/CBMC, SAT) vs code-unit reference model",
+        "design_ref": "DESIGN.md §4 C18",
+    },
+}
